@@ -11,13 +11,16 @@
   hence everything can still be read, assigned to and destroyed, and destroying everything leaves an
   empty heap without any fault.
 
-  `ST::string`, `string_stream` and the `noexcept` members are layered on top of this by later work.
+  The string level (`ST::string` operations as do-blocks over the buffer members, with their temporaries and
+  unwinding: `Model/StrPool.lean`) is the second part of this file: `string_fault_safe` and its corollaries,
+  from `Lemmas/StrPoolFault.lean: sop_fault_spec`.  `string_stream` has its own machine (C16/C17).
   The last section proves, on concrete witnesses, that the two members as found in the pinned tree
   (`allocateAsFound`, `assignCopyAsFound`) did *not* have this property (defect 16).
 -/
 import StVerif.Lemmas.PoolStep
 import StVerif.Props.C05
 import StVerif.Props.C16
+import StVerif.Lemmas.StrPoolFault
 
 namespace StVerif.Props.C19
 open StVerif StVerif.Pool
@@ -228,5 +231,137 @@ theorem stream_fault_then_destructible {p p' : Stream.Pool} (hi : Stream.Inv p) 
     · rw [h] at h1; cases h1
     · rw [h] at h1; cases h1; exact h2
   exact ⟨hi', Stream.destroyAll_empty hi' ids hall⟩
+/-! ## string level
+
+  `SReachF L p`: `p` is reached from the empty pool by a finite history of string-level operations (`StrPool.SOp`:
+  construction from text / buffers / other encodings, copy, move, assignment, `set` in every validation mode, `+=` of a
+  string / C string / code point, results of const operations, destruction), each run under its precondition, where
+  **any fault schedule may be installed before any operation** and operations that threw (`bad_alloc` included) are
+  part of the history.  What a const operation computes is a parameter (`derive`); what it allocates for its result
+  is modelled (`fresh`), what libstdc++ containers allocate inside a value computation is not. -/
+
+open StVerif.StrPool
+
+/-- **string-level fault safety**: in any state of any such history, under any fault schedule, an operation whose
+    precondition holds ends in one of three ways (`SFOutcome`) — completed, only its targets changed; an exception other
+    than `bad_alloc`, nothing changed; `bad_alloc`, only with a fault scheduled, only its targets changed and each target
+    holds its previous value, is empty, or was a constructor target.  In each case the invariant of C05 holds afterwards
+    (no pointer to released storage, exclusive ownership, nothing leaked) and every temporary has been destroyed. -/
+theorem string_fault_safe {L : Nat} (hL : 0 < L) {p : Pool} (hr : SReachF L p) (op : SOp) (hpre : op.pre p) :
+    SFOutcome (op.run p) p op.targets := by
+  obtain ⟨hI, hT⟩ := sreachF_inv hL hr
+  exact sop_fault_spec hI hT op hpre
+
+/-- whatever the schedule, no string-level operation ends in a memory fault (bad free, double free, use after free,
+    out-of-bounds access, member call on a destroyed temporary) -/
+theorem string_fault_never_faults {L : Nat} (hL : 0 < L) {p : Pool} (hr : SReachF L p) (op : SOp) (hpre : op.pre p) :
+    ∀ f q, op.run p ≠ .fault f q := by
+  intro f q h
+  rcases string_fault_safe hL hr op hpre with ⟨p', h1, _⟩ | ⟨e, p', h1, _⟩ | ⟨p', h1, _⟩ <;> (rw [h] at h1; cases h1)
+
+/-- **after `bad_alloc`**: a fault was scheduled; each target holds its previous value, or is empty, or was the target of a
+    constructor (for the results of a const operation: those built before the failing one exist, the others do not);
+    every other object is the very same object (data pointer included) with the same value -/
+theorem string_fault_target_previous_or_empty {L : Nat} (hL : 0 < L) {p p' : Pool} (hr : SReachF L p) (op : SOp)
+    (hpre : op.pre p) (h : op.run p = .throw .badAlloc p') :
+    p.failAt ≠ none ∧
+    (∀ t ∈ op.targets, view p' t = view p t ∨ view p' t = some (0, []) ∨ p.objs t = none) ∧
+    (∀ x, x ∉ op.targets → p'.objs x = p.objs x ∧ view p' x = view p x) := by
+  rcases string_fault_safe hL hr op hpre with ⟨p'', h1, _⟩ | ⟨e, p'', h1, he, _⟩ | ⟨p'', h1, f1, s1, _, v1⟩
+  · rw [h] at h1; cases h1
+  · rw [h] at h1; cases h1; exact absurd rfl he
+  · rw [h] at h1; cases h1
+    exact ⟨f1, v1, fun x hx => ⟨s1.objs x hx, s1.view x hx⟩⟩
+
+/-- an exception other than `bad_alloc` leaves every object unchanged also when a fault is scheduled (C18 under faults) -/
+theorem string_fault_other_exception_unchanged {L : Nat} (hL : 0 < L) {p p' : Pool} (hr : SReachF L p) (op : SOp)
+    (hpre : op.pre p) {e : Exc} (h : op.run p = .throw e p') (he : e ≠ .badAlloc) :
+    ∀ x, p'.objs x = p.objs x ∧ view p' x = view p x := by
+  rcases string_fault_safe hL hr op hpre with ⟨p'', h1, _⟩ | ⟨e', p'', h1, _, s1, _⟩ | ⟨p'', h1, _⟩
+  · rw [h] at h1; cases h1
+  · rw [h] at h1; cases h1; exact fun x => ⟨s1.objs x (fun f => f), s1.view x (fun f => f)⟩
+  · rw [h] at h1; cases h1; exact absurd rfl he
+
+/-- only finitely many objects are alive in a state of such a history -/
+theorem string_reachable_finite {L : Nat} (hL : 0 < L) {p : Pool} (hr : SReachF L p) :
+    ∃ os : List Nat, os.Nodup ∧ ∀ o, (p.objs o).isSome = true ↔ o ∈ os := by
+  have hsup : ∃ cs : List Nat, ∀ o, (p.objs o).isSome = true → o ∈ cs := by
+    induction hr with
+    | init => exact ⟨[], fun o ho => by simp [Pool.init] at ho⟩
+    | @ok p p' op hprev hpre hrun ih =>
+      obtain ⟨cs, hcs⟩ := ih
+      refine ⟨op.targets ++ cs, fun o ho => ?_⟩
+      by_cases ht : o ∈ op.targets
+      · exact List.mem_append_left _ ht
+      · rcases string_fault_safe hL hprev op hpre with ⟨p'', h1, s1, _⟩ | ⟨e, p'', h1, _⟩ | ⟨p'', h1, _⟩ <;>
+          (rw [hrun] at h1; cases h1)
+        rw [s1.objs o ht] at ho
+        exact List.mem_append_right _ (hcs o ho)
+    | @thrown p p' op e hprev hpre hrun ih =>
+      obtain ⟨cs, hcs⟩ := ih
+      refine ⟨op.targets ++ cs, fun o ho => ?_⟩
+      by_cases ht : o ∈ op.targets
+      · exact List.mem_append_left _ ht
+      · rcases string_fault_safe hL hprev op hpre with ⟨p'', h1, _⟩ | ⟨e', p'', h1, _, s1, _⟩ | ⟨p'', h1, _, s1, _⟩ <;>
+          (rw [hrun] at h1; cases h1)
+        · rw [s1.objs o (fun f => f)] at ho
+          exact List.mem_append_right _ (hcs o ho)
+        · rw [s1.objs o ht] at ho
+          exact List.mem_append_right _ (hcs o ho)
+    | arm f _ ih => exact ih
+  obtain ⟨cs, hcs⟩ := hsup
+  obtain ⟨os, hnd, hos⟩ := exact_live_list p cs
+  exact ⟨os, hnd, fun o => ⟨fun ho => (hos o).2 ⟨hcs o ho, ho⟩, fun ho => ((hos o).1 ho).2⟩⟩
+
+/-- **destructible**: the state after `bad_alloc` is again a state of such a history (so everything above applies to
+    whatever is done next — reading, assigning, appending, with or without further faults), and destroying every live
+    object, in any order, never faults and leaves an empty heap (C05 `no_leak`): the failed call leaked nothing and left
+    nothing to be released twice -/
+theorem string_fault_destructible {L : Nat} (hL : 0 < L) {p p' : Pool} (hr : SReachF L p) (op : SOp) (hpre : op.pre p)
+    (h : op.run p = .throw .badAlloc p') :
+    SReachF L p' ∧ Inv p' ∧
+    (∃ os : List Nat, os.Nodup ∧ ∀ o, (p'.objs o).isSome = true ↔ o ∈ os) ∧
+    ∀ os : List Nat, os.Nodup → (∀ o, (p'.objs o).isSome = true ↔ o ∈ os) →
+      ∃ q, destroyAll os p' = .ok () q ∧ (∀ o, q.objs o = none) ∧ (∀ k, q.heap k = none) := by
+  have hr' : SReachF L p' := .thrown hr hpre h
+  have hI' := (sreachF_inv hL hr').1
+  exact ⟨hr', hI', string_reachable_finite hL hr', fun os hnd hall => Props.C05.no_leak hI' os hnd hall⟩
+
+/-- after `bad_alloc` every live object can be read through `data()` / `size()`: NUL-terminated, as long as it says -/
+theorem string_fault_readable {L : Nat} (hL : 0 < L) {p p' : Pool} (hr : SReachF L p) (op : SOp) (hpre : op.pre p)
+    (h : op.run p = .throw .badAlloc p') :
+    ∀ o b, p'.objs o = some b → ∃ ob, observe o p' = .ok ob p' ∧ ob.terminator = 0 ∧ ob.units.length = ob.size := by
+  intro o b hb
+  obtain ⟨ob, e1, _, _, e4, e5, _⟩ := observe_spec (string_fault_destructible hL hr op hpre h).2.1 hb
+  exact ⟨ob, e1, e5, e4⟩
+
+/-- the histories of C04/C18 (no fault ever scheduled) are among these histories -/
+theorem string_histories_included {L : Nat} {p : Pool} (h : SReach L p) : SReachF L p := SReach.toF h
+
+/-- **the hypotheses are satisfiable and the fault really fires**: a 20-byte string (heap storage at limit 16) is
+    constructed in the empty pool, the next allocation is scheduled to fail, and `o += o` (whose 40-byte result needs an
+    allocation) ends in `bad_alloc` — with the string still holding its 20 bytes.  (By the lemmas, not by evaluation.) -/
+example : ∃ p p', SReachF 16 p ∧ (SOp.appendStr 0 0).pre p ∧ (SOp.appendStr 0 0).run p = .throw .badAlloc p' ∧
+    view p' 0 = some (20, List.replicate 20 0x61) := by
+  have hL : 0 < 16 := by decide
+  have hpre0 : (SOp.ctorText 0 (List.replicate 20 0x61) .assumeValid).pre (Pool.init 16) := ⟨by unfold userId; omega, rfl⟩
+  obtain ⟨hI0, hT0, hF0⟩ := sreach_inv hL (.init : SReach 16 (Pool.init 16))
+  rcases ctorText_spec hI0 hF0 (o := 0) rfl (hT0 _ isTemp_A) (hT0 _ isTemp_C) (by decide) (by decide) (List.replicate 20 0x61) .assumeValid with
+    ⟨_, p1, h1, s1, a1, _, _, v1⟩ | ⟨ht, _⟩
+  · have hr1 : SReachF 16 p1 := .ok .init hpre0 h1
+    let p := { p1 with failAt := some (p1.allocs + 1) }
+    have hr : SReachF 16 p := .arm _ hr1
+    obtain ⟨hI, hT⟩ := sreachF_inv hL hr
+    obtain ⟨b, hb⟩ := alive_of_view v1
+    have hb' : p.objs 0 = some b := hb
+    have hv : view p 0 = some (20, List.replicate 20 0x61) := by
+      have : view p 0 = view p1 0 := rfl
+      rw [this, v1]; simp [setVal]
+    have hu : units p b = List.replicate 20 0x61 := units_of_view hb' hv
+    have hLp : p.L = 16 := s1.L
+    obtain ⟨p', h2, _, s2⟩ := appendStr_throws hI hb' hb' (hT _ isTemp_A) (by rw [hu, hLp]; simp) rfl
+    refine ⟨p, p', hr, ⟨by unfold userId; omega, by unfold userId; omega, ⟨b, hb'⟩, ⟨b, hb'⟩⟩, h2, ?_⟩
+    rw [s2.view 0 (fun f => f)]; exact hv
+  · exact absurd ht.1 (by decide)
 
 end StVerif.Props.C19
